@@ -176,3 +176,15 @@ def seeded_family(seed, count, n_inputs=(1, 5), n_gates=(1, 10), **kw):
         ni = rnd.randint(*n_inputs)
         ng = rnd.randint(*n_gates)
         yield f"seeded[{seed}:{i}]", random_circuit(rnd, ni, ng, **kw)
+
+
+def add_random_blocks(c, rnd, max_blocks=2):
+    """Attach up to `max_blocks` blocks over random gate subsets (in place)."""
+    labs = [l for l, g in c.gates.items() if g.gate_type != G.INPUT]
+    for b in range(rnd.randint(0, max_blocks)):
+        if not labs:
+            break
+        members = rnd.sample(labs, rnd.randint(1, len(labs)))
+        outs = rnd.sample(members, rnd.randint(0, min(2, len(members))))
+        c.make_block(f"blk{b}", members, outs)
+    return c
